@@ -118,6 +118,17 @@ package proto
 //@   ensures appendsOnly(b) {append-only}
 //@   ensures len(b.Buf) > old(len(b.Buf)) && arrayof(b.Buf)[base] == 1 {query-code-first}
 //@   ensures uvAt(arrayof(b.Buf), base + 1, len(q.ID)) {query-id-second}
+//@ -- the tail of the packet, read from its end: before revision 54459 there is no parameter section
+//@ -- and the packet ends with the query text (length-prefixed), preceded by the compression byte and
+//@ -- the stage byte (always Complete = 2); from 54459 on a parameter list follows, terminated by an
+//@ -- empty string (stated for an empty list: text, then one zero byte)
+//@   let end = offset(b.Buf) + len(b.Buf)
+//@   let nb = len(q.Body)
+//@   ensures version < 54459 ==> len(b.Buf) >= old(len(b.Buf)) + 3 + nb + uvsize(nb) && uvAt(arrayof(b.Buf), end - nb - uvsize(nb), nb) {no-parameter-section-before-54459:text-length-last}
+//@   ensures version < 54459 ==> forall k in 0..nb :: arrayof(b.Buf)[end - nb + k] == q.Body[k] {no-parameter-section-before-54459:text-is-the-end-of-the-packet}
+//@   ensures version < 54459 && q.Compression <= 1 ==> arrayof(b.Buf)[end - nb - uvsize(nb) - 1] == q.Compression && arrayof(b.Buf)[end - nb - uvsize(nb) - 2] == 2 {stage-complete-then-compression-before-the-text}
+//@   ensures version >= 54459 && len(q.Parameters) == 0 ==> len(b.Buf) >= old(len(b.Buf)) + 4 + nb + uvsize(nb) && arrayof(b.Buf)[end - 1] == 0 && uvAt(arrayof(b.Buf), end - 1 - nb - uvsize(nb), nb) {empty-parameter-list-is-one-zero-byte-after-the-text}
+//@   ensures version >= 54459 && len(q.Parameters) == 0 ==> forall k in 0..nb :: arrayof(b.Buf)[end - 1 - nb + k] == q.Body[k] {text-before-the-parameter-list}
 //@ loop 0 (rangeindex)
 //@   modifies b.Buf
 //@   invariant -1 <= rangeindex && rangeindex < len(q.Settings)
@@ -126,6 +137,7 @@ package proto
 //@ loop 1 (rangeindex)
 //@   modifies b.Buf
 //@   invariant -1 <= rangeindex && rangeindex < len(q.Parameters)
+//@   invariant rangeindex == -1 ==> len(b.Buf) >= old(len(b.Buf)) + 3 + len(q.Body) + uvsize(len(q.Body)) && uvAt(arrayof(b.Buf), offset(b.Buf) + len(b.Buf) - len(q.Body) - uvsize(len(q.Body)), len(q.Body)) && forall k in 0..len(q.Body) :: arrayof(b.Buf)[offset(b.Buf) + len(b.Buf) - len(q.Body) + k] == q.Body[k]
 //@   invariant len(b.Buf) > old(len(b.Buf)) && forall k in 0..old(len(b.Buf)) :: b.Buf[k] == old(b.Buf[k])
 //@   invariant arrayof(b.Buf)[offset(b.Buf) + old(len(b.Buf))] == 1 && uvAt(arrayof(b.Buf), offset(b.Buf) + old(len(b.Buf)) + 1, len(q.ID)) && old(len(b.Buf)) + 1 + uvsize(len(q.ID)) <= len(b.Buf)
 
